@@ -546,17 +546,19 @@ func (c *Client) doRountrip(ctx context.Context, msg *kmip.RequestMessage) (*kmi
 //   - *kmip.ResponseMessage - The KMIP response message received.
 //   - error - Any error encountered during processing or sending the request.
 func (c *Client) Roundtrip(ctx context.Context, msg *kmip.RequestMessage) (*kmip.ResponseMessage, error) {
-	i := 0
-	var next func(ctx context.Context, req *kmip.RequestMessage) (*kmip.ResponseMessage, error)
-	next = func(ctx context.Context, req *kmip.RequestMessage) (*kmip.ResponseMessage, error) {
+	return c.nextFrom(0)(ctx, msg)
+}
+
+// nextFrom returns the continuation running the middlewares from index i, then the transport.
+// Each invocation of the returned function runs the whole remainder of the chain once, so a
+// middleware may call it several times (retry) or not at all.
+func (c *Client) nextFrom(i int) Next {
+	return func(ctx context.Context, req *kmip.RequestMessage) (*kmip.ResponseMessage, error) {
 		if i < len(c.middlewares) {
-			mdl := c.middlewares[i]
-			i++
-			return mdl(next, ctx, req)
+			return c.middlewares[i](c.nextFrom(i+1), ctx, req)
 		}
 		return c.doRountrip(ctx, req)
 	}
-	return next(ctx, msg)
 }
 
 // negotiateVersion negotiates the KMIP protocol version to be used by the client.
